@@ -155,6 +155,9 @@ def encrypt_with(o, case):
     if mode in AEAD:
         for a in case["aads"]:
             o.update(a)
+        if not msg and mode not in ("siv", "ocb") and sum(len(a) for a in case["aads"]) % 3 == 1:
+            # a message without plaintext, produced with no encrypt() call at all: update(); digest()
+            return b"", (o.digest() if case.get("digest_api", "digest") == "digest" else bytes.fromhex(o.hexdigest()))
         if mode == "siv" or not case["split"]:
             return o.encrypt_and_digest(msg)
         ct = b""
@@ -181,6 +184,9 @@ def decrypt_with(o, case, ct, tag):
     if mode in AEAD:
         for a in case["aads"]:
             o.update(a)
+        if not ct and mode not in ("siv", "ocb") and sum(len(a) for a in case["aads"]) % 3 == 2:
+            o.verify(tag)                   # nothing to decrypt: update(); verify() - no decrypt() call at all
+            return b""
         return o.decrypt_and_verify(ct, tag)
     return o.decrypt(ct)
 
